@@ -1488,7 +1488,12 @@ done:
 // lock on a correct tree: the client simply waits behind it (normal outcome).
 func (e *Engine) commitRace(b *types.Block) CommitResult {
 	t := e.Sch
-	at := []string{ParkStateReplaced, ParkStateReplaced, ParkStateReplaced, ParkBeforeSave, ParkCommitStart}[t.Int(5)]
+	// (ParkBeforeSave is not used: in kv mode the speculative state reads the
+	// store the block's state was just written to, so between the state commit
+	// and Mempool.Update the pool lives on a mixture of both states that no
+	// model can judge and that consensus, being the committing goroutine,
+	// never sees.)
+	at := []string{ParkStateReplaced, ParkStateReplaced, ParkStateReplaced, ParkCommitStart}[t.Int(4)]
 	pickRel := t.Int(1 << 16)
 	steps := 1 + t.Int(2)
 	useRival := t.Bool(2, 3)
@@ -1499,7 +1504,10 @@ func (e *Engine) commitRace(b *types.Block) CommitResult {
 	if useRival {
 		rival = e.prepareRival(b)
 	}
-	res, parked := e.W.CommitRace(b, at, func() {
+	// only at the park point where the committer holds locks a client can end
+	// up blocked on a mutex (no quiescence to wait for); at the other one every
+	// client step is followed by a proper quiescence wait
+	res, parked := e.W.CommitRace(b, at, at == ParkStateReplaced, func() {
 		for i := 0; i < steps; i++ {
 			if rival != nil && i == 0 {
 				e.Tracef("  inside CommitBlock (%q): rival u%d n%d %s", at, rival.User, rival.Nonce, short(rival.Hash))
@@ -1521,9 +1529,6 @@ func (e *Engine) commitRace(b *types.Block) CommitResult {
 			e.Tracef("  inside CommitBlock (%q): release #%d", at, f.sub.ID)
 			e.W.Release(f.sub)
 			e.C.Probe("race-release")
-			if !f.sub.Done() && !f.sub.Parked() && !f.sub.ReachedState() {
-				e.C.Probe("race-client-waits-behind-committer")
-			}
 			e.raceObserve(at)
 		}
 		e.raceObserve(at)
@@ -1542,7 +1547,7 @@ func (e *Engine) commitRace(b *types.Block) CommitResult {
 // there, e.g. dropping an uncovered transaction at a promotion, must be judged
 // against that state, not against the one after the commit).
 func (e *Engine) raceObserve(at string) {
-	if at == ParkStateReplaced || e.Stopped() {
+	if at != ParkCommitStart || e.Stopped() {
 		return
 	}
 	e.collect()
